@@ -114,8 +114,9 @@ def check_stat(ctx, label, stat, view_ids, numeric=True):
     return d
 
 
-def check_multi(ctx, label, view, stats, view_ids):
-    m = view.multi(stats)
+def check_multi(ctx, label, view, stats, view_ids, held=None):
+    """held: a MultiStat object created before the history (it must stay live); else a fresh one"""
+    m = view.multi(stats) if held is None else held
     names = [s.name for s in stats]
     single = {s.name: s.asdict() for s in stats}
     md = m.asdict()
@@ -181,6 +182,7 @@ class Held:
                 "two_node_clustering_coefficient": nv.two_node_clustering_coefficient,
             }
             self.estats = {"size": ev.size, "order": ev.order, "size(degree)": ev.size(degree=d), "order(degree)": ev.order(degree=d)}
+        self.nmulti = self.emulti = None
         self.nattr = nv.attrs("c", missing=args["missing"])
         self.eattr = ev.attrs("c", missing=args["missing"])
         self.nattr_all = nv.attrs
@@ -246,6 +248,10 @@ def expectations(H, cls, args):
 
 def verify(ctx, H, cls, held, case, prev_nodes, prev_edges, edges_reordered):
     args, flt = case["args"], case["filter"]
+    errs = nets.integrity(H)
+    if errs:  # the primitives themselves disagree (property C01/C02): nothing below can be evaluated
+        ctx.fail(("primitives", "members-and-memberships-disagree", errs[0][0]), errs[0][1])
+        return
     nodes, edges, mem, ms, ne, ee, extra = expectations(H, cls, args)
     nv, ev = held.nv, held.ev
     # ---- views list exactly the current IDs, in insertion order
@@ -281,6 +287,12 @@ def verify(ctx, H, cls, held, case, prev_nodes, prev_edges, edges_reordered):
     nlabels = list(ne)[:3]
     check_multi(ctx, "nodes", nv, [held.nstats[k] for k in nlabels], nodes)
     check_multi(ctx, "edges", ev, [held.estats[k] for k in list(ee)[:3]], edges)
+    # multi-stat objects created once, before the history, and evaluated before it as well
+    if held.nmulti is None:
+        held.nmulti = nv.multi([held.nstats[k] for k in nlabels])
+        held.emulti = ev.multi([held.estats[k] for k in list(ee)[:3]])
+    check_multi(ctx, "nodes-held", nv, [held.nstats[k] for k in nlabels], nodes, held=held.nmulti)
+    check_multi(ctx, "edges-held", ev, [held.estats[k] for k in list(ee)[:3]], edges, held=held.emulti)
     m2 = nv.multi(["degree", held.nstats["degree(order)"]]).asdict()
     ctx.check(m2 == {n: {"degree": ne["degree"][n], held.nstats["degree(order)"].name: ne["degree(order)"][n]} for n in nodes}, ("multi", "nodes", "by-name"), lambda: repr(m2)[:200])
     # ---- filterby / filterby_attr
